@@ -457,6 +457,9 @@ class Solver(object):
         # integrate with.
         self.dt = self._get_timestep()
 
+        # The first step may also have to land on a requested output time.
+        self._adjust_timestep_for_output()
+
         while (self.tf - self.t) > self._epsilon and \
               (self.count < self.max_steps):
 
@@ -708,41 +711,50 @@ class Solver(object):
         # Consider the other cases if user has requested output at a specified
         # time.
 
+        # dump output if we have reached a desired time.
         output_at_times = self.output_at_times
-        dt = self.dt
-
-        # adjust dt to land on specific output times or dump output if we have
-        # reached a desired time.
         if len(output_at_times) > 0:
             tdiff = output_at_times - self.t
-
             if numpy.any(numpy.abs(tdiff) < self._epsilon):
                 dump = True
 
-            # Our next step may exceed a required timestep so we adjust the
-            # timestep.
-            timestep_too_big = (tdiff > 0.0) & (tdiff < dt)
-            if numpy.any(timestep_too_big):
-                indices = numpy.where(timestep_too_big)[0]
-                index = indices[0]
-                output_time = output_at_times[index]
-                if ((abs(output_time - self.t) < self._epsilon) and
-                   (len(indices) > 1)):
-                    index = indices[1]
-                    output_time = output_at_times[index]
-                if abs(output_time - self.t) > self._epsilon:
-                    # It sometimes happens that the current time is just
-                    # shy of the requested output time which results in a
-                    # ridiculously small dt so we skip that case.
-
-                    # Compute the new time-step to fall on the specified output
-                    # time instant and save the previous dt value.
-                    self._prev_dt = dt
-                    self.dt = float(output_time - self.t)
+        # adjust dt to land on specific output times.
+        self._adjust_timestep_for_output()
 
         if dump:
             self.dump_output()
             self.barrier()
+
+    def _adjust_timestep_for_output(self):
+        """Shorten `dt` if the next step would go past a requested output
+        time, so that the step lands on it.
+        """
+        output_at_times = self.output_at_times
+        if len(output_at_times) == 0:
+            return
+        dt = self.dt
+        tdiff = output_at_times - self.t
+
+        # Our next step may exceed a required timestep so we adjust the
+        # timestep.
+        timestep_too_big = (tdiff > 0.0) & (tdiff < dt)
+        if numpy.any(timestep_too_big):
+            indices = numpy.where(timestep_too_big)[0]
+            index = indices[0]
+            output_time = output_at_times[index]
+            if ((abs(output_time - self.t) < self._epsilon) and
+               (len(indices) > 1)):
+                index = indices[1]
+                output_time = output_at_times[index]
+            if abs(output_time - self.t) > self._epsilon:
+                # It sometimes happens that the current time is just
+                # shy of the requested output time which results in a
+                # ridiculously small dt so we skip that case.
+
+                # Compute the new time-step to fall on the specified output
+                # time instant and save the previous dt value.
+                self._prev_dt = dt
+                self.dt = float(output_time - self.t)
 
     def _get_solver_data(self):
         if self._prev_dt is not None:
